@@ -35,6 +35,12 @@ var vhC13Corpus = []vhTpl{
 	{"verbatim", []string{"a", "v", "b"}, []vhTag{{true, "verbatim"}, {true, "endverbatim"}}},
 	{"spaceless", []string{"a", "<p>", "b"}, []vhTag{{true, "spaceless"}, {true, "endspaceless"}}},
 	{"extends", []string{"", "", "X", ""}, []vhTag{{true, "extends 'base'"}, {true, "block c"}, {true, "endblock"}}},
+	// tags directly next to each other (empty text pieces): a dash must not reach past the neighbouring tag
+	{"adjacent-prints", []string{"a", "", "c"}, []vhTag{{false, "x"}, {false, "x"}}},
+	{"adjacent-set-print", []string{"a", "", "c"}, []vhTag{{true, "set v = 1"}, {false, "v"}}},
+	{"adjacent-if", []string{"a", "", "", "c"}, []vhTag{{true, "if x"}, {false, "x"}, {true, "endif"}}},
+	{"adjacent-for-end", []string{"a", "i", "", "c"}, []vhTag{{true, "for i in xs"}, {true, "endfor"}, {false, "x"}}},
+	{"comment-between", []string{"a", "{##}", "c"}, []vhTag{{false, "x"}, {false, "x"}}},
 }
 
 func vhOpen(t vhTag, dash bool) string {
@@ -156,12 +162,33 @@ func VH_C13_Trim() {
 	dr := make([]bool, nt)
 	wls := make([]string, nt+1)
 	wrs := make([]string, nt+1)
+	// the delimiters next to piece p always get symbolic dashes; in the templates whose tags stand
+	// directly next to each other every delimiter does (a dash must only affect the text next to it)
+	adjacent := len(tp.name) > 8 && (tp.name[:8] == "adjacent" || tp.name == "comment-between")
+	for i := 0; i < nt; i++ {
+		if adjacent || i == p-1 {
+			dr[i] = symBool()
+		}
+		if adjacent || i == p {
+			dl[i] = symBool()
+		}
+	}
+	// the other pieces: fixed whitespace around a non-empty core, nothing around an empty one
+	for i := 0; i <= nt; i++ {
+		if i == p || tp.texts[i] == "" || tp.texts[i] == "{##}" {
+			continue
+		}
+		if i > 0 {
+			wls[i] = " \n"
+		}
+		if i < nt {
+			wrs[i] = "\t "
+		}
+	}
 	if p > 0 {
-		dr[p-1] = symBool()
 		wls[p] = symStringIn(symChoice(nw+1), vhC13Alphabet)
 	}
 	if p < nt {
-		dl[p] = symBool()
 		wrs[p] = symStringIn(symChoice(nw+1), vhC13Alphabet)
 	}
 	src, ref := vhC13Build(tp, dl, dr, wls, wrs)
